@@ -129,8 +129,17 @@ def extra_documents():
     return out
 
 
+def family_documents(tier):
+    from mc.gen import docs_family as DF
+
+    return [(label, doc) for label, doc, extra in DF.documents(tier) if not extra]
+
+
 def plan(tier, seed):
     items, meta = lattice.plan_items(tier, seed)
+    nf = len(family_documents(tier))
+    items = [("family", lo, min(nf, lo + 40), tier) for lo in range(0, nf, 40)] + items
+    meta["family_documents"] = nf
     nd = len(extra_documents())
     items = [("extra", lo, min(nd, lo + 20)) for lo in range(0, nd, 20)] + items
     meta["extra_documents"] = nd
@@ -142,6 +151,11 @@ def plan(tier, seed):
 
 def work(item):
     st = runner.Stats()
+    if item[0] == "family":
+        for label, doc in family_documents(item[3])[item[1]:item[2]]:
+            trip(st, doc, label, 2)
+        docs.clear()
+        return st
     if item[0] == "extra":
         for n, schema in enumerate(extra_documents()[item[1]:item[2]]):
             trip(st, schema, json.dumps(schema, sort_keys=True)[:200], 1)
